@@ -45,3 +45,121 @@ pub fn check(rec: &J) -> Verdict {
         }
     }
 }
+
+/// Family `poetic` (C11): besides the tree, the literal's value is the numeral its words spell, and a poetic string
+/// is the exact text of its line.
+pub fn check_poetic(rec: &J) -> Verdict {
+    if rec["fam"] == "saysopen" {
+        // outside the property's quantifier; the recorded finding is that the literal runs on over the following lines
+        let text = concretise_src(rec["text"].as_str().unwrap());
+        let want = rec["str"].as_str().unwrap();
+        return match catch_unwind(AssertUnwindSafe(|| rrss::frontend::parser::parse(&text))) {
+            Err(p) => Verdict::viol(format!("parser panicked: {}", panic_msg(p)), J::Null),
+            Ok(Err(e)) => Verdict::viol(format!("poetic string with an open delimiter is rejected: {}", e), J::Null),
+            Ok(Ok(p)) => {
+                use rrss::frontend::ast::*;
+                let got = match p.code.first() {
+                    Some(Block::NonEmpty(ss)) => match ss.first() {
+                        Some(Statement::PoeticAssignment(PoeticAssignment::String(s))) => Some(s.rhs.clone()),
+                        _ => None,
+                    },
+                    _ => None,
+                };
+                match got {
+                    Some(g) if g == want => Verdict::ok(true),
+                    Some(g) if g.starts_with(want) && g[want.len()..].starts_with('\n') => Verdict::viol(
+                        "unclosed-delimiter-swallows-lines: a poetic string that leaves a quote or parenthesis open runs on over the following lines".into(),
+                        json!({"rhs": g}),
+                    ),
+                    other => Verdict::viol(format!("poetic string is {:?}, the line says {:?}", other, want), J::Null),
+                }
+            }
+        };
+    }
+    let v = check(rec);
+    if v.st != "ok" {
+        return v;
+    }
+    let text = concretise_src(rec["text"].as_str().unwrap());
+    let prog = match rrss::frontend::parser::parse(&text) {
+        Ok(p) => p,
+        Err(e) => return Verdict::viol(format!("rejected: {}", e), J::Null),
+    };
+    use rrss::frontend::ast::*;
+    let lit = match prog.code.first().and_then(|b| match b { Block::NonEmpty(ss) => ss.first(), _ => None }) {
+        Some(Statement::PoeticAssignment(PoeticAssignment::Number(p))) => match &p.rhs {
+            PoeticNumberAssignmentRHS::PoeticNumberLiteral(l) => Some(l.clone()),
+            _ => None,
+        },
+        Some(Statement::ArrayPush(a)) => match &a.value {
+            Some(ArrayPushRHS::PoeticNumberLiteral(l)) => Some(l.clone()),
+            _ => None,
+        },
+        _ => None,
+    };
+    let run = crate::exec::run(&prog, &crate::exec::RunCfg::default());
+    if run.is_panic() {
+        return Verdict::viol(format!("interpreter {}", run.outcome_str()), J::Null);
+    }
+    if let Some(l) = lit {
+        let digits = |k: &str| -> String { rec["digits"][k].as_array().unwrap().iter().map(|d| d.as_u64().unwrap().to_string()).collect() };
+        let (ip, fp) = (digits("ip"), digits("fp"));
+        let numeral = format!("{}.{}", if ip.is_empty() { "0" } else { &ip }, if fp.is_empty() { "0" } else { &fp });
+        let want: f64 = numeral.parse().unwrap();
+        let got = match catch_unwind(AssertUnwindSafe(|| l.compute_value())) {
+            Ok(g) => g,
+            Err(p) => return Verdict::viol(format!("computing the literal's value panicked: {}", panic_msg(p)), J::Null),
+        };
+        let exact = fp.is_empty() && want < 9007199254740992.0;
+        let ok = if exact { got == want } else { (got - want).abs() <= 4.0 * f64::EPSILON * want.abs() };
+        if !ok {
+            return Verdict::viol(format!("the literal denotes {} but its words spell {}", got, numeral), J::Null);
+        }
+        // the interpreter assigns exactly that value
+        if let Some(ev) = run.last_stmt() {
+            let back = back_map(rec);
+            let mut seen = None;
+            for scope in &ev.scopes {
+                for (k, e) in scope {
+                    if back.get(&name_json(k).to_string()).map(|s| s.as_str()) == Some("x") {
+                        if let rrss::verif::EntrySnapshot::Var(v) = e {
+                            seen = Some(v.clone());
+                        }
+                    }
+                }
+            }
+            use rrss::exec::val::Val;
+            let holds = match seen {
+                Some(Val::Number(f)) => f == got,
+                Some(Val::Array(a)) => matches!(a.verif_parts().0.last(), Some(Val::Number(f)) if *f == got),
+                _ => false,
+            };
+            if !holds {
+                return Verdict::viol("the interpreter does not assign the literal's value".into(), J::Null);
+            }
+        }
+    }
+    Verdict::ok(true)
+}
+
+/// Family `fault` (C13): the text must be rejected, and the error must name the line of the fault.
+pub fn check_fault(rec: &J) -> Verdict {
+    let text = concretise_src(rec["text"].as_str().unwrap());
+    let want = rec["line"].as_u64().unwrap();
+    let r = catch_unwind(AssertUnwindSafe(|| rrss::frontend::parser::parse(&text).map(|p| format!("{:?}", p)).map_err(|e| e.to_string())));
+    match r {
+        Err(p) => Verdict::viol(format!("parser panicked: {}", panic_msg(p)), J::Null),
+        Ok(Ok(tree)) => Verdict::viol("a program with a syntax fault is accepted".into(), json!({"tree": tree.chars().take(400).collect::<String>()})),
+        Ok(Err(msg)) => {
+            let line = msg
+                .strip_prefix("Parse error (line ")
+                .and_then(|r| r.split(')').next())
+                .and_then(|n| n.parse::<u64>().ok());
+            if line == Some(want) {
+                Verdict::ok(true)
+            } else {
+                Verdict::viol(format!("the fault is on line {} but the error says: {}", want, msg), J::Null)
+            }
+        }
+    }
+}
